@@ -13,6 +13,7 @@ mod cksum;
 mod codec;
 mod path;
 mod seg;
+mod udp;
 mod util;
 
 use std::alloc::{GlobalAlloc, Layout, System};
@@ -92,6 +93,7 @@ fn main() {
         "cksum" => cksum::run(&opts, &mut out),
         "path" => path::run(&opts, &mut out),
         "codec" => codec::run(&opts, &mut out),
+        "udp" => udp::run(&opts, &mut out),
         other => {
             eprintln!("unknown engine {other}");
             std::process::exit(2);
